@@ -55,6 +55,20 @@ void h_product_matrix (void)
     for (int i = 0; i < 3; i++) for (int j = 0; j < 3; j++) VF_ASSERT (kab.x[i][j] == p.x[i][j], "K(q1*q2) == K(q2)*K(q1): quaternion multiplication is multiplication of the rotation matrices");
     VF_END ();
 }
+/* the in-place spelling of the product (q1 *= q2; also q1 *= q1) corresponds to the same matrix product */
+void h_product_matrix_inplace (void)
+{
+    IN_Q (a, in_a); IN_Q (b, in_b); VF_IN (int, in_alias);
+    Q a0 = a;
+    Q *pb = in_alias ? &a : &b;
+    Q b0 = *pb;
+    Q *r = F_qmuleq (&a, pb);
+    VF_ASSERT (r == &a, "operator*= returns *this");
+    M33 kab = K_of (a, F_toMatrix33 (&a)), ka = K_of (a0, F_toMatrix33 (&a0)), kb = K_of (b0, F_toMatrix33 (&b0));
+    M33 p = F_mul33 (&kb, &ka);
+    for (int i = 0; i < 3; i++) for (int j = 0; j < 3; j++) VF_ASSERT (kab.x[i][j] == p.x[i][j], "after q1 *= q2, K(q1) == K(q2)*K(old q1): the in-place product is the same rotation composition");
+    VF_END ();
+}
 /* ~q conjugates; q * ~q == (N, 0) */
 void h_conjugate (void)
 {
